@@ -409,41 +409,8 @@ func runC06(w *core.World, r *core.Report) {
 	// ---- R8 ----------------------------------------------------------------------------------
 	checkRestartCallers(w, r, "R8")
 	// ---- R9 ----------------------------------------------------------------------------------
-	{
-		// the flag-addressing functions: those of package state that touch the flag bytes, and the
-		// functions of the package they call
-		inSet := map[*ssa.Function]bool{}
-		for _, fn := range w.FuncsIn("state") {
-			if fn.Name() == "FlagByteSize" || fn.Name() == "GetIndex" || fn.Name() == "String" {
-				continue // reporting helpers outside the request path
-			}
-			for _, in := range allInstrs(fn) {
-				if v, ok := in.(ssa.Value); ok {
-					if _, f, ok := core.LoadedField(v); ok && f == "Flags" {
-						inSet[fn] = true
-					}
-				}
-			}
-		}
-		for round := 0; round < 3; round++ {
-			for fn := range inSet {
-				for _, c := range core.Calls(fn) {
-					if g := core.StaticCallee(c); g != nil && core.PkgOf(g) == "state" && len(g.Blocks) > 0 {
-						inSet[g] = true
-					}
-				}
-			}
-		}
-		var sfns []*ssa.Function
-		for _, fn := range w.FuncsIn("state") {
-			if inSet[fn] {
-				sfns = append(sfns, fn)
-			}
-		}
-		checkNarrowing(w, r, "R9", sfns, "a flag index or byte offset wraps: a write to a client flag lands on a reserved flag (or another client flag) although the write filter saw a legal index")
-		checkNarrowArithmetic(w, r, "R9", sfns, "a flag byte offset or mask is computed in a type it can leave")
-		checkIntDecoderTotal(w, r, "R9")
-	}
+	checkFlagAddressing(w, r, "R9")
+	checkIntDecoderTotal(w, r, "R9")
 
 	// ---- R6 ----------------------------------------------------------------------------------
 	if mf := anchor(w, r, "state", "(*State).MatchFlag"); mf != nil {
@@ -738,4 +705,39 @@ func checkFlagWriteFilter(w *core.World, r *core.Report, rule string) {
 		}
 	}
 	r.Floor(rule, "dynamic flag writes", dyn, 2)
+}
+
+// checkFlagAddressing: no lossy narrowing and no narrow arithmetic in the functions of package
+// state that address the flag bytes (and the functions of the package they call).
+func checkFlagAddressing(w *core.World, r *core.Report, rule string) {
+	inSet := map[*ssa.Function]bool{}
+	for _, fn := range w.FuncsIn("state") {
+		if fn.Name() == "FlagByteSize" || fn.Name() == "GetIndex" || fn.Name() == "String" {
+			continue // reporting helpers outside the request path
+		}
+		for _, in := range allInstrs(fn) {
+			if v, ok := in.(ssa.Value); ok {
+				if _, f, ok := core.LoadedField(v); ok && f == "Flags" {
+					inSet[fn] = true
+				}
+			}
+		}
+	}
+	for round := 0; round < 3; round++ {
+		for fn := range inSet {
+			for _, c := range core.Calls(fn) {
+				if g := core.StaticCallee(c); g != nil && core.PkgOf(g) == "state" && len(g.Blocks) > 0 {
+					inSet[g] = true
+				}
+			}
+		}
+	}
+	var sfns []*ssa.Function
+	for _, fn := range w.FuncsIn("state") {
+		if inSet[fn] {
+			sfns = append(sfns, fn)
+		}
+	}
+	checkNarrowing(w, r, rule, sfns, "a flag index or byte offset wraps: a write to a client flag lands on a reserved flag (or another client flag) although the write filter saw a legal index")
+	checkNarrowArithmetic(w, r, rule, sfns, "a flag byte offset or mask is computed in a type it can leave")
 }
